@@ -265,3 +265,43 @@ for opname, sign in (("iadd", "+"), ("isub", "-")):
         c.ensures(f"near(result, log10(pow10(a * fv) {sign} pow10(b * fv)) / fv, 0)", "power-sum" if sign == "+" else "power-difference")
         c.ensures("qb.magnitude.value == b", "right-operand-unchanged")
         c.no_raise()
+
+
+# ---- array magnitudes through the non-linear conversions: element-wise, and the quantity keeps its own array --------------------
+import numpy as _np
+
+
+@spec
+def elems(a):
+    return [v for v in a]
+
+
+@contract(Q + ".value", ["C05"], name="Quantity.value[temperature-arrays]")
+def _(c):
+    c.bound = "arrays of three elements (values symbolic)"
+    for a, b in [("K", "Cel"), ("Cel", "K"), ("K", "K"), ("Cel", "degF"), ("degF", "Cel"), ("K", "degR"), ("degR", "K"), ("Cel", "Cel")]:
+        def pre(bd, a=a, b=b):
+            xs = [bd.real(f"x{i}") for i in range(3)]
+            arr = bd.call(bd.const(_np.array), bd.list(list(xs)))
+            q = bd.new(Q, arr, a)
+            return dict(args=[q, b], env=dict(xs=xs, ua=a, ub=b, q=q, arr=arr))
+        c.scenario(f"{a}->{b}", pre)
+    c.ensures("all([near(r, from_kelvin(ub, to_kelvin(ua, x)), 1000) for r, x in zip(elems(result), xs)]) and len(elems(result)) == 3", "standard-affine-formula-element-wise")
+    c.ensures("elems(q.magnitude.value) == xs and elems(arr) == xs and q.baseunits.expression == ua", "the-quantity-keeps-its-values")
+    c.no_raise()
+
+
+@contract(Q + ".value", ["C05"], name="Quantity.value[level-arrays]")
+def _(c):
+    c.bound = "arrays of three elements (values symbolic)"
+    for a, b in [("dBm", "W"), ("dB", "B"), ("Np", "dB"), ("dBV", "V")]:
+        def pre(bd, a=a, b=b):
+            xs = [bd.real(f"x{i}") for i in range(3)]
+            arr = bd.call(bd.const(_np.array), bd.list(list(xs)))
+            q = bd.new(Q, arr, a)
+            fresh = [bd.new(Q, x, a) for x in xs]
+            return dict(args=[q, b], env=dict(xs=xs, ua=a, ub=b, q=q, arr=arr, fresh=fresh))
+        c.scenario(f"{a}->{b}", pre)
+    c.ensures("all([near(r, f.value(ub), 0) for r, f in zip(elems(result), fresh)]) and len(elems(result)) == 3", "same-as-the-scalar-conversion-of-each-element")
+    c.ensures("elems(q.magnitude.value) == xs and elems(arr) == xs", "the-quantity-keeps-its-values")
+    c.no_raise()
